@@ -122,9 +122,11 @@ func (d *driver) next() M {
 		for k, v := range params {
 			p[k] = v
 		}
-		switch r.Intn(4) {
+		switch r.Intn(5) {
+		case 4:
+			p["fw"] = pick(r, [][]any{{}, {"u1"}, {"u1", "u2"}, {"u1", l1.BadNotBech32}})
 		case 0:
-			p["execs"] = pick(r, [][]any{{"e1", "e2"}, {"e2"}, {"e1", "e3"}, {"e3", "e2", "e1"}})
+			p["execs"] = pick(r, [][]any{{"e1", "e2"}, {"e2"}, {"e1", "e3"}, {"e3", "e2", "e1"}, {"e1", l1.BadNotBech32}})
 		case 1:
 			p["hookGas"] = pick(r, []string{"ample", "ample", "tiny", "zero"})
 		case 2:
